@@ -14,6 +14,7 @@ from .. import classify, clock, crash, drive, hist, strace, world
 from ..oracle import refhash, xmlread
 
 SPELLING = False  # this monitor controls the spelling of path arguments itself
+VERBOSITY = False  # stdout of verify -dh -co is parsed / runs must be identical
 LEVEL = "fault_enumeration"
 RULE = (
     "scenario = history with 0/1/2/5 prior generations, flat or with 1-2 nested histories, then an interrupted create (folder "
